@@ -13,6 +13,9 @@ META = {
     "level": "Decides: (R1) the match() decision tables of And/Or/JustOne/AtMostOne nodes, restriction.AnyMatch, Negate, AlwaysBool and PackageRestriction equal the propositional truth tables for up to 3 children, all child outcomes and both negate values (96 rows per n-ary node); (R2) no match/force_True/force_False of any restriction class can return an implicit None; (R3) in every DNF/CNF generator the `negate` arm either raises NotImplementedError or returns right after delegating to the dual node built from restriction.Negate of every child. Does NOT decide logical equivalence of the derived normal forms for arbitrary trees.",
     "note": "child.match(...) is an opaque predicate; tables for more than 3 children are not enumerated (the loops are uniform in the child index)",
 }
+META["technique"] += "; " + 'late-binding closure analysis; try/except fallback agreement on compared fields'
+META["level"] += " Added after the second round of independent changes: " + '(R3) a negate arm asks the dual node for the SAME normal form; (R5) no closure created in a loop of the restriction modules outlives its iteration while reading loop variables; (R6) an except-fallback in a match() consults every compared field the main path consults.'
+META["technique"] += "; " + 'generic pack G on the anchored files (optional-flag shift, closures outliving a loop iteration, single-pass iterables consumed twice, %-templates built from data, in-place writes to class-level / memoised objects, generators mutating what they yielded, memo keys that are projections)'
 
 
 def spec_and(n, o, neg):
